@@ -57,7 +57,7 @@ func (r *R) add(key string, pos token.Pos, status, detail string) {
 // ok records an obligation that is discharged when cond holds and violated otherwise.
 func (r *R) ok(cond bool, key string, pos token.Pos, detail string) bool {
 	if cond {
-		r.add(key, pos, Discharged, detail)
+		r.add(key, pos, Discharged, "holds; would be reported as: "+detail)
 	} else {
 		r.add(key, pos, Violated, detail)
 	}
